@@ -61,6 +61,9 @@ CHECKS = {
    text="Every string over {a,b,$,/,+,#} up to length 6 (quick) / 8 (thorough) is validated, every (valid filter, topic<=6/7) pair is matched, and every ordered pair of valid filters up to length 5/6 is tested for covering, against a 40-line reference transcribed from MQTT 4.7; exhaustive within those bounds.",
    note="Trusts the reference in harness/src/c18.rs; alphabet of 6 ASCII symbols plus two multi-byte characters; hook verif::topic_is_valid exposes the dispatcher's validator.",
    design="4/C18"),
+ "C20": dict(engine="simnet", technique=A_TECH + "; time is the virtual clock of the vendored ntex-util, moved only by the explorer's tick event",
+   text="Virtual clock on a half-second grid (each tick delivered as five 100 ms sub-steps), horizon = timeout + 5 s: v3/v5 server with keep-alive 1, 2, 3 s (client value), server override smaller / larger / with client value 0, and client value 0 without override; background traffic absent or one complete packet every (period - 0.5 s) delivered whole, in two writes, or split across two slots; on top every placement of up to 2 (quick) / 4 (thorough) events out of {traffic stops, extra packet, partial frame, rest of it, a handler becomes busy / completes (v3 max_receive 1: reading paused)}; frame read rate (1 s, 3 s overall, > 4 B per period) with every placement of up to 3 / 5 fragment deliveries of 1, 3, 6 or the remaining bytes; connect timeout 2 s with CONNECT in up to three fragments; client keep-alive 0..3 s idle, with a busy handler, with a streamed publish open across a ping. Oracle: keep-alive timeout only after a gap >= the period (never for live peers, also after a reading pause) and with DISCONNECT 0x8D on v5; an idle or stalled connection is ended within the timeout plus tick slack; read timeout never earlier than configured nor for a frame above the rate, always for a stalled one; CONNECT in time accepted, late one dropped, no handler before acceptance; client writes PINGREQ at least once per keep-alive period.",
+   note=A_NOTE + " The io timer of ntex-io counts one-second ticks; deadlines are judged with (timeout+1) ticks x 1.3 + 0.5 s on the late side and no slack on the early side. Keep-alive 0 without override: the library's documented 30 s default applies, only 'live peers survive' is demanded. Known findings C20-2/3.", design="4/C20"),
 }
 NOT_YET = {}
 props = [json.loads(l) for l in open('/verif/properties.jsonl')]
